@@ -106,10 +106,23 @@ for g, ids in GROUPS.items():
             json.dump(meta, open(os.path.join(dst, 'meta.json'), 'w'), indent=1)
 
 rows.sort()
-print('| id | seeded change needs | kept | registered quick check | signatures reported |')
-print('|---|---|---|---|---|')
-for ID, status, det, sigs, needs in rows:
+import io, contextlib
+buf = io.StringIO()
+with contextlib.redirect_stdout(buf):
+  print('| id | seeded change needs | kept | registered quick check | signatures reported |')
+  print('|---|---|---|---|---|')
+  for ID, status, det, sigs, needs in rows:
     needs = (needs or '').replace('\n', ' ').replace('|', '/')
     if len(needs) > 170:
         needs = needs[:167] + '...'
+    if status != 'kept':
+        continue
     print('| %s | %s | %s | %s | %s |' % (ID, needs, status, det, ', '.join('`%s`' % s for s in sigs[:3])))
+
+table = buf.getvalue()
+sys.stdout.write(table)
+if '--write' in sys.argv:
+    d = open('/verif/DESIGN.md').read()
+    a, b = d.index('<!-- SEEDED-TABLE-BEGIN -->'), d.index('<!-- SEEDED-TABLE-END -->')
+    d = d[:a] + '<!-- SEEDED-TABLE-BEGIN -->\n' + table + d[b:]
+    open('/verif/DESIGN.md', 'w').write(d)
